@@ -456,24 +456,84 @@ func decodesClaim(p *core.Prog, fn *core.Func, s *core.Site) bool {
 	if s.Call == nil || len(s.Call.Args) == 0 {
 		return false
 	}
-	u, ok := ast.Unparen(s.Call.Args[0]).(*ast.UnaryExpr)
-	if !ok || u.Op != token.AND {
-		return false
+	arg := ast.Unparen(s.Call.Args[0])
+	if u, ok := arg.(*ast.UnaryExpr); ok && u.Op == token.AND {
+		arg = ast.Unparen(u.X)
 	}
-	id, ok := ast.Unparen(u.X).(*ast.Ident)
+	id, ok := arg.(*ast.Ident)
 	if !ok {
 		return false
 	}
-	obj := p.Info.Uses[id]
+	return decodeTarget(p, fn, p.Info.Uses[id], 0)
+}
+
+// decodeTarget: the variable (a claim, or a pointer to one) is what a decode
+// call in fn - or in a helper extracted from fn that hands the pointer back -
+// fills in.
+func decodeTarget(p *core.Prog, fn *core.Func, obj types.Object, depth int) bool {
+	if obj == nil || depth > 3 {
+		return false
+	}
 	found := false
-	inspectFn(fn, func(n ast.Node) bool {
-		call, ok := n.(*ast.CallExpr)
-		if !ok || len(call.Args) < 2 {
-			return true
+	isObj := func(e ast.Expr) bool {
+		e = ast.Unparen(e)
+		if u, ok := e.(*ast.UnaryExpr); ok && u.Op == token.AND {
+			e = ast.Unparen(u.X)
 		}
-		if f := p.Callee(call); f != nil && f.Pkg() == p.Types && f.Name() == "decode" {
-			if u2, ok := ast.Unparen(call.Args[1]).(*ast.UnaryExpr); ok && u2.Op == token.AND {
-				if id2, ok := ast.Unparen(u2.X).(*ast.Ident); ok && p.Info.Uses[id2] == obj {
+		id, ok := e.(*ast.Ident)
+		return ok && (p.Info.Uses[id] == obj || p.Info.Defs[id] == obj)
+	}
+	inspectFn(fn, func(n ast.Node) bool {
+		switch v := n.(type) {
+		case *ast.CallExpr:
+			if len(v.Args) >= 2 {
+				if f := p.Callee(v); f != nil && f.Pkg() == p.Types && f.Name() == "decode" && isObj(v.Args[1]) {
+					found = true
+				}
+			}
+		case *ast.AssignStmt:
+			// obj, ... := helper(...): the helper's matching result is a decode target there
+			if len(v.Rhs) != 1 {
+				return true
+			}
+			call, ok := ast.Unparen(v.Rhs[0]).(*ast.CallExpr)
+			if !ok {
+				return true
+			}
+			f := p.Callee(call)
+			if f == nil || f.Pkg() != p.Types || p.ByObj[f] == nil || pinnedFuncs[p.ByObj[f].Name] || p.ByObj[f].Decl.Body == nil {
+				return true
+			}
+			h := p.ByObj[f]
+			for i, l := range v.Lhs {
+				if !isObj(l) {
+					continue
+				}
+				all, any := true, false
+				ast.Inspect(h.Decl.Body, func(m ast.Node) bool {
+					if _, isLit := m.(*ast.FuncLit); isLit {
+						return false
+					}
+					rs, ok := m.(*ast.ReturnStmt)
+					if !ok || i >= len(rs.Results) {
+						return true
+					}
+					r := ast.Unparen(rs.Results[i])
+					if isNilIdent(p, r) {
+						return true
+					}
+					if u, ok := r.(*ast.UnaryExpr); ok && u.Op == token.AND {
+						r = ast.Unparen(u.X)
+					}
+					rid, ok := r.(*ast.Ident)
+					if !ok || !decodeTarget(p, h, p.Info.Uses[rid], depth+1) {
+						all = false
+						return true
+					}
+					any = true
+					return true
+				})
+				if all && any {
 					found = true
 				}
 			}
